@@ -25,24 +25,37 @@ def gen_tid(rng, magic):
     return (MAGIC if magic else bytes(rng.getrandbits(8) for _ in range(4))) + t
 
 
+# attribute types a request may carry besides MAPPED-ADDRESS (1) and CHANGE-REQUEST (3), which the responder interprets:
+# the IANA registry (USERNAME, MESSAGE-INTEGRITY, PADDING 0x26, RESPONSE-PORT 0x27, SOFTWARE, FINGERPRINT, ICE ...), the
+# comprehension-optional twins of the interpreted ones (0x8001 / 0x8003), reserved and unassigned values
+ATTR_TYPES = [0x0002, 0x0004, 0x0005, 0x0006, 0x0007, 0x0008, 0x0009, 0x000A, 0x0012, 0x0014, 0x0015, 0x0019, 0x0020, 0x0022, 0x0024, 0x0025,
+              0x0026, 0x0027, 0x0027, 0x002A, 0x8001, 0x8003, 0x8001, 0x8003, 0x8022, 0x8023, 0x8027, 0x8028, 0x8029, 0x802A, 0x802B, 0x802C, 0xC057,
+              0x0000, 0x0101, 0x0301, 0x7777, 0xFFFF]
+
+
+def rnd_attr_type(rng):
+    t = rng.choice(ATTR_TYPES) if rng.random() < 0.8 else rng.getrandbits(16)
+    return t if t not in (1, 3) else 0x8022
+
+
 def gen_attrs(rng, total=None):
     """Well-formed attribute list with 4-aligned lengths and types other than MAPPED-ADDRESS(1) /
     CHANGE-REQUEST(3).  If total is given the list is exactly that many bytes (total % 4 == 0, != 4...)."""
     out = b""
     if total is None:
         for _ in range(rng.randrange(0, 5)):
-            t = rng.choice([0x0006, 0x0008, 0x0014, 0x0015, 0x0020, 0x8022, 0x8028, 0x0024, 0x0025, 0x7777, 0xFFFF, 0x0002, 0x0004])
-            l = 4 * rng.randrange(0, 12)
+            t = rnd_attr_type(rng)
+            l = 4 * rng.choice([0, 1, 1, 2, rng.randrange(0, 12)])
             out += attr(t, bytes(rng.getrandbits(8) for _ in range(l)))
         return out
     left = total
     while left > 0:
         if left < 4:
             raise ValueError("total must be a multiple of 4")
-        l = min(left - 4, 4 * rng.randrange(0, 40))
+        l = min(left - 4, 4 * rng.choice([1, 1, 2, rng.randrange(0, 40), rng.randrange(0, 40)]))
         if left - 4 - l in (1, 2, 3):
             l = left - 4
-        t = rng.choice([0x0006, 0x0008, 0x0014, 0x8022, 0x0024, 0x7777, 0x0002])
+        t = rnd_attr_type(rng)
         out += attr(t, bytes(rng.getrandbits(8) for _ in range(l)))
         left -= 4 + l
     return out
